@@ -4,6 +4,7 @@ every responseWriter method, and the run invariant behind the property theorems.
 -/
 import CaddyModel.C15.Spec
 import CaddyModel.C15.Caddyfile
+import CaddyModel.C15.Pool
 
 set_option linter.unusedSimpArgs false
 set_option linter.unusedVariables false
@@ -1631,4 +1632,38 @@ theorem splitOn_joinElems : ∀ (es : List Bytes), es ≠ [] → (∀ e ∈ es, 
     show splitOn 44 (e ++ 44 :: joinElems (e2 :: es)) = _
     rw [splitOn_append_sep 44 _ _ (hc e List.mem_cons_self), ih]
 
+end CaddyModel.C15
+
+/-! ## pooled encoders -/
+namespace CaddyModel.C15
+
+section
+variable {α : Type}
+
+theorem call_dest (o : EncObj α) (c : EncCall α) :
+    (o.call c).1.dest = o.dest ∧ ∀ e ∈ (o.call c).2, e.dest = o.dest := by
+  cases c <;> simp [EncObj.call, Emit.dest]
+
+theorem calls_dest : ∀ (cs : List (EncCall α)) (o : EncObj α),
+    (o.calls cs).1.dest = o.dest ∧ ∀ e ∈ (o.calls cs).2, e.dest = o.dest
+  | [], o => by simp [EncObj.calls]
+  | c :: cs, o => by
+    obtain ⟨a, b⟩ := call_dest o c
+    obtain ⟨i1, i2⟩ := calls_dest cs (o.call c).1
+    simp only [EncObj.calls, prependEmits, List.mem_append]
+    refine ⟨by rw [i1, a], fun e he => ?_⟩
+    rcases he with he | he
+    · exact b e he
+    · rw [i2 e he, a]
+
+theorem calls_payloads : ∀ (cs : List (EncCall α)) (o : EncObj α),
+    (o.calls cs).2.flatMap Emit.payloads ++ (o.calls cs).1.pending = o.pending ++ writesOf cs
+  | [], o => by simp [EncObj.calls, writesOf]
+  | c :: cs, o => by
+    have ih := calls_payloads cs (o.call c).1
+    simp only [EncObj.calls, prependEmits, List.flatMap_append, List.append_assoc]
+    rw [ih]
+    cases c <;> simp [EncObj.call, Emit.payloads, writesOf]
+
+end
 end CaddyModel.C15
